@@ -410,6 +410,165 @@ def replay_bounded(inp):
     return True, {"case": inp, "observed": "postcondition holds"}
 
 
+# ---------------------------------------------------------------------------------------------------
+# Deductive part: determine_arg_locations for signatures of ANY length, by the loop-invariant rule.
+#
+# The function is cut mechanically (ast, on every run, from the real source) at its single
+# `for arg_type in arg_types:` loop into  preamble / body / tail.  Invariant, stated over the specification
+# state (ni, nf, off) of `expected_locations`:
+#     int_regs == INT[ni:]  and  float_regs == FLT[nf:]  and  offset == off  and  arg_locs == locations of the prefix
+# Obligations:  init  -- the preamble establishes it with (0, 0, 16) and an empty arg_locs;
+#               step  -- for EVERY reachable register-file state (ni in 0..6, nf in 0..8), EVERY scalar IR type and
+#                        EVERY integer offset (symbolic), the real body appends exactly the specification's location
+#                        for that type, leaves the earlier entries alone and re-establishes the invariant for the
+#                        specification's next state;
+#               tail  -- the statements after the loop are `return arg_locs`.
+# Extraction drops nothing but the docstring; a loop body with break / continue / return, or a function that no
+# longer has this shape, makes the contract stale (undecided), never a violation.
+import ast as _ast
+import inspect as _inspect
+import textwrap as _textwrap
+from pyvc.engine import Contract, make_value
+from pyvc.spec import and_, tier
+from pyvc.sym import Undecided
+
+_M40 = "ppci.arch.x86_64.arch:X86_64Arch.determine_arg_locations"
+_STATE = ["int_regs", "float_regs", "offset", "arg_locs"]
+_CUT = {}
+
+
+def _cut():
+    """(preamble function, body function) compiled from the real source of determine_arg_locations"""
+    from ppci.arch.x86_64.arch import X86_64Arch
+    fn = X86_64Arch.determine_arg_locations
+    src = _textwrap.dedent(_inspect.getsource(fn))
+    if _CUT.get("src") == src:
+        return _CUT["fns"]
+    fdef = _ast.parse(src).body[0]
+    params = [a.arg for a in fdef.args.args]
+    if len(params) != 2:
+        raise Undecided("contract stale: determine_arg_locations%r" % (params,))
+    loops = [i for i, s in enumerate(fdef.body) if isinstance(s, (_ast.For, _ast.While))]
+    if len(loops) != 1 or not isinstance(fdef.body[loops[0]], _ast.For):
+        raise Undecided("contract stale: determine_arg_locations no longer has exactly one top-level for loop")
+    k = loops[0]
+    loop = fdef.body[k]
+    if not (isinstance(loop.iter, _ast.Name) and loop.iter.id == params[1] and isinstance(loop.target, _ast.Name) and not loop.orelse):
+        raise Undecided("contract stale: the loop is no longer `for <name> in %s`" % params[1])
+    tail = fdef.body[k + 1:]
+    if not (len(tail) == 1 and isinstance(tail[0], _ast.Return) and isinstance(tail[0].value, _ast.Name) and tail[0].value.id == "arg_locs"):
+        raise Undecided("contract stale: the statements after the loop are no longer `return arg_locs`")
+    for n in _ast.walk(loop):
+        if isinstance(n, (_ast.Break, _ast.Continue, _ast.Return, _ast.Yield, _ast.For, _ast.While)) and n is not loop:
+            raise Undecided("contract stale: the loop body contains %s" % type(n).__name__)
+    for n in _ast.walk(_ast.Module(body=fdef.body[:k], type_ignores=[])):
+        if isinstance(n, (_ast.Return, _ast.For, _ast.While)):
+            raise Undecided("contract stale: the preamble contains %s" % type(n).__name__)
+    assigned = {n.id for s in fdef.body[:k] for n in _ast.walk(s) if isinstance(n, _ast.Name) and isinstance(n.ctx, _ast.Store)}
+    if assigned != set(_STATE):
+        raise Undecided("contract stale: loop-carried state is %s, the invariant is stated over %s" % (sorted(assigned), _STATE))
+    ret = _ast.Return(value=_ast.Tuple(elts=[_ast.Name(id=v, ctx=_ast.Load()) for v in _STATE], ctx=_ast.Load()))
+    noargs = dict(posonlyargs=[], kwonlyargs=[], kw_defaults=[], defaults=[])
+    pre = _ast.FunctionDef(name="__pre", args=_ast.arguments(args=[_ast.arg(arg=p) for p in params], **noargs),
+                           body=[s for s in fdef.body[:k] if not (isinstance(s, _ast.Expr) and isinstance(s.value, _ast.Constant))] + [ret],
+                           decorator_list=[])
+    body = _ast.FunctionDef(name="__body", args=_ast.arguments(args=[_ast.arg(arg=p) for p in [params[0], loop.target.id] + _STATE], **noargs),
+                            body=list(loop.body) + [ret], decorator_list=[])
+    mod = _ast.fix_missing_locations(_ast.Module(body=[pre, body], type_ignores=[]))
+    ns = dict(fn.__globals__)
+    exec(compile(mod, "<determine_arg_locations, cut at its loop>", "exec"), ns)
+    _CUT["src"], _CUT["fns"] = src, (ns["__pre"], ns["__body"])
+    return _CUT["fns"]
+
+
+def _regfiles():
+    from ppci.arch.x86_64 import registers as R
+    INT = [(getattr(R, n), getattr(R, e)) for n, e in [("rdi", "edi"), ("rsi", "esi"), ("rdx", "edx"), ("rcx", "ecx"), ("r8", "r8d"), ("r9", "r9d")]]
+    FLT = [(getattr(R, "xmm%d_single" % i), getattr(R, "xmm%d" % i)) for i in range(8)]
+    return INT, FLT
+
+
+_SENTINEL = object()
+
+
+def _step_call(fn, env, args, kwargs):
+    pre, body = _cut()
+    INT, FLT = _regfiles()
+    try:
+        out = body(arch(), _types()[env.t], list(INT[env.ni:]), list(FLT[env.nf:]), env.offset, [_SENTINEL])
+    except NameError as e:
+        raise Undecided("contract stale: the loop body reads %s" % e)
+    return out
+
+
+def _step_post(e):
+    from ppci.arch.stack import StackLocation
+    INT, FLT = _regfiles()
+    int_regs, float_regs, offset, arg_locs = e.result
+    is_f = e.t in ("f32", "f64")
+    in_reg = (e.nf < 8) if is_f else (e.ni < 6)
+    ni2 = e.ni + (0 if is_f or not in_reg else 1)
+    nf2 = e.nf + (1 if is_f and in_reg else 0)
+    yield ("exactly one location is appended and the earlier entries are untouched", len(arg_locs) == 2 and arg_locs[0] is _SENTINEL)
+    loc = arg_locs[-1]
+    yield ("integer register file afterwards == rdi rsi rdx rcx r8 r9 minus the registers handed out", list(int_regs) == INT[ni2:])
+    yield ("SSE register file afterwards == xmm0..7 minus the registers handed out", list(float_regs) == FLT[nf2:])
+    if in_reg:
+        yield ("a register is handed out while the file of its class is not exhausted", not isinstance(loc, StackLocation))
+        if not isinstance(loc, StackLocation):
+            want = ("xmm", e.nf) if is_f else ("reg", INT_REGS[e.ni])
+            yield ("the %s is the next one of its class in System V order" % ("SSE register" if is_f else "integer register"), _describe(loc) == want)
+            if is_f:
+                yield ("single / double view of the SSE register matches the type", loc.bitsize == (32 if e.t == "f32" else 64))
+            else:
+                yield ("the register is wide enough for the type", loc.bitsize >= WIDTH[e.t])
+        yield ("a register argument consumes no stack", offset == e.offset)
+    else:
+        yield ("the argument goes to the stack once the file of its class is exhausted", isinstance(loc, StackLocation))
+        if isinstance(loc, StackLocation):
+            yield ("its slot starts at the running offset", loc.offset == e.offset)
+            yield ("the slot holds the value", loc.size >= (4 if e.t == "f32" else 8) and loc.size <= 8)
+        yield ("every stack argument takes one 8-byte slot (offset advances by 8)", offset == e.offset + 8)
+
+
+def _step_mk(c, g):
+    off = make_value(("int",), "offset", c)
+    return {"args": [], "env": {"offset": off}, "inputs": {"offset": off}}
+
+
+_ALLT = ["i8", "u8", "i16", "u16", "i32", "u32", "i64", "u64", "ptr", "f32", "f64"]
+CONTRACTS.append(Contract(
+    _M40, "C40", label="determine_arg_locations: loop body preserves the invariant (any offset)",
+    # quick: the first, the last and the exhausted state of each register file; thorough: every reachable state
+    grid=[{"ni": ni, "nf": nf, "t": t} for ni in ((0, 5, 6) if tier() == "quick" else range(7)) for nf in ((0, 7, 8) if tier() == "quick" else range(9)) for t in _ALLT],
+    make=_step_mk, call=_step_call, replay_args=lambda g, v: {"args": [], "env": dict(v)},
+    sample_inputs=lambda g, rnd: [{"offset": o} for o in (16, 24, 16 + 8 * rnd.randrange(1, 1 << 20))],
+    ensures=_step_post))
+
+
+def _init_call(fn, env, args, kwargs):
+    pre, body = _cut()
+    try:
+        return pre(arch(), [])
+    except NameError as e:
+        raise Undecided("contract stale: the preamble reads %s" % e)
+
+
+def _init_post(e):
+    INT, FLT = _regfiles()
+    int_regs, float_regs, offset, arg_locs = e.result
+    yield ("before the first argument: all six integer registers available, in System V order", list(int_regs) == INT)
+    yield ("before the first argument: xmm0..7 available, in order", list(float_regs) == FLT)
+    yield ("the first stack argument lives 16 bytes above the frame pointer", offset == 16)
+    yield ("no location yet", list(arg_locs) == [])
+
+
+CONTRACTS.append(Contract(
+    _M40, "C40", label="determine_arg_locations: preamble establishes the invariant; tail returns arg_locs", grid=[{}],
+    make=lambda c, g: {"args": [], "env": {}, "inputs": {}}, call=_init_call, replay_args=lambda g, v: {"args": [], "env": dict(v)},
+    ensures=_init_post))
+
+
 ASSUMED = ["the expected locations are the System V AMD64 psABI classification for scalar INTEGER / SSE arguments (3.2.3): six integer registers, eight SSE registers, "
            "8-byte stack slots in argument order; the first stack argument lives 16 bytes above the frame pointer (return address + saved rbp)"]
 NOT_COVERED = ["preservation of callee-saved registers and of the stack pointer across a real call (needs an assembly shim), aggregates passed by value, varargs, "
